@@ -66,9 +66,11 @@ func floodRun(e *Env) {
 			t := t
 			// draw the per-line plan up front (plan vector), execute in the task
 			type item struct {
-				ln  int
-				gap time.Duration
+				ln     int
+				gap    time.Duration
+				prefix string
 			}
+			prefixes := []string{"", "", "", "PASS ", "PONG :", "PING :", "QUIT :", "PRIVMSG #c :", "JOIN ", "\x01", "CAP END", "AUTHENTICATE "}
 			var items []item
 			for k := 0; k < cnt; k++ {
 				var ln int
@@ -87,7 +89,7 @@ func floodRun(e *Env) {
 				if nsenders > 1 && ln < 14 {
 					ln = 14
 				}
-				items = append(items, item{ln, gaps[g.Intn(len(gaps))]})
+				items = append(items, item{ln, gaps[g.Intn(len(gaps))], prefixes[g.Intn(len(prefixes))]})
 			}
 			run := func() {
 				for _, it := range items {
@@ -98,7 +100,12 @@ func floodRun(e *Env) {
 						text = fmt.Sprintf("P %d.%06d ", t, seq)
 						text += strings.Repeat("x", it.ln-len(text))
 					} else {
-						text = strings.Repeat("y", it.ln)
+						// the rule knows lengths only: the verb must make no difference
+						text = it.prefix
+						if len(text) > it.ln {
+							text = text[:it.ln]
+						}
+						text += strings.Repeat("y", it.ln-len(text))
 					}
 					fl := &floodLine{text: text, enq: e.S.Now(), floodOn: floodNow}
 					issued[text] = fl
